@@ -448,6 +448,8 @@ class Interp:
                 return self.eval(n, Env(mod))
         if isinstance(recv, (SList, PyList, PyDict, SDict)) or kind_of(recv) in (STR, BYTES) or isinstance(recv, (tuple, frozenset)):
             return BoundMethod(recv, attr)
+        if getattr(recv, "pyvc_methods", False):
+            return BoundMethod(recv, attr)
         if isinstance(recv, Closure) and attr == "__name__":
             return getattr(recv.node, "name", "<lambda>")
         if default is not KeyError:
@@ -894,7 +896,7 @@ class Interp:
         if self.ctx._sat(z3.BoolVal(True)) == z3.unsat:
             raise Infeasible()
         if kind == "raise":
-            ecls = self.global_lookup(ename, mod)
+            ecls = self.pack.exc_by_dotted(ename) if "." in ename else self.global_lookup(ename, mod)
             e = SExc(ecls, ())
             if ename in c.exc_kinds:
                 c.exc_kinds[ename](self, e, env)
@@ -960,6 +962,10 @@ class Interp:
                     snap.vars[k] = self.snapshot(v, memo)
             e = e.parent
         snap.extra = dict(env.extra)
+        # ghost state at entry (immutable values; containers are cloned)
+        for g, v in self.ctx.ghost.items():
+            if isinstance(g, str) and g not in snap.extra and not g.startswith(("global:", "id:", "sorted:")):
+                snap.extra[g] = self.snapshot(v, memo)
         return snap
 
     def snapshot(self, v, memo):
